@@ -408,7 +408,7 @@ theorem loop_no_panic {σ : Type} (P : GMem → Prop)
             · rw [if_pos hlt]
               split
               · exact ih (count - (total + (k + 1))) (by omega) m1 st1 _ _ hkeep hlt rfl
-              · simp
+              · split <;> simp
             · rw [if_neg hlt]
               split <;> simp
           · rw [if_neg hU]; simp
